@@ -1837,7 +1837,30 @@ def block_layout(lk, vis, name, r, header_ok, what, _after=None, _depth=0):
                 r.bad(c.mod, fq(c, f), cons, f"the block produced by the inherited handler must be kept whole and last "
                       f"(only declarations may precede it)", o.node.lineno)
             else:
-                r.ok(c.mod, fq(c, f), cons, nontrivial=False)
+                # anything read from the visitor's state to decorate the block (loop-variable declarations) must be read
+                # AFTER the inherited handler has visited the block, which is what fills that state
+                order = []
+                for ev_ in o.events:
+                    for call in eval_order_calls(ev_):
+                        if is_passthrough(call, name):
+                            order.append(('visit', call))
+                        elif isinstance(call.func, ast.Attribute) and isinstance(call.func.value, ast.Name) and \
+                                call.func.value.id == f.args.args[0].arg and any(norm(call) == norm(x).replace('s.', f.args.args[0].arg + '.', 1)
+                                                                              or norm(call) == norm(x) for x in others):
+                            order.append(('read', call))
+                early = []
+                seen_visit = False
+                for k_, call in order:
+                    if k_ == 'visit':
+                        seen_visit = True
+                    elif not seen_visit:
+                        early.append(call)
+                if early:
+                    r.bad(c.mod, fq(c, f), cons, f"`{norm(early[0])}` is evaluated before the inherited handler visits the block "
+                          f"(operands of + are evaluated left to right): state collected while visiting -- the loop variables that "
+                          f"need an `integer` declaration -- is read too early and the declarations are lost", o.node.lineno)
+                else:
+                    r.ok(c.mod, fq(c, f), cons, nontrivial=False)
             block_layout(lk, vis, name, r, header_ok, what, c, _depth + 1)
             continue
         cons = f"{name} -> {' + '.join(norm(x)[:50] for x in segs)}"
@@ -1922,6 +1945,39 @@ class _BlockingEv(_Ev):
             self.bound.pop(g.target.id, None)
             return any(vals) if name == 'any' else all(vals)
         return super().ev_Call(e)
+
+
+class _ChainEv(_Ev):
+    """evaluates the target / value expressions of visit_Assign for node.targets = [t0, t1, ...]"""
+    def __init__(self, tnames, blocking, bound=None):
+        super().__init__({'node.blocking': blocking})
+        self.tnames, self.bound = list(tnames), dict(bound or {})
+
+    def ev(self, e):
+        t = norm(e)
+        if t == 's.visit(node.value)':
+            return 'RHS'
+        if t == 'node.targets':
+            return list(self.tnames)
+        if isinstance(e, ast.Name) and e.id in self.bound:
+            return self.bound[e.id]
+        if isinstance(e, (ast.ListComp, ast.GeneratorExp)) and len(e.generators) == 1 and not e.generators[0].ifs:
+            g = e.generators[0]
+            if isinstance(g.target, ast.Name) and norm(e.elt) == f"s.visit({g.target.id})":
+                return list(self.ev(g.iter))
+        if isinstance(e, ast.Call) and isinstance(e.func, ast.Name) and e.func.id in ('list', 'tuple', 'reversed') and len(e.args) == 1:
+            v = list(self.ev(e.args[0]))
+            return v[::-1] if e.func.id == 'reversed' else v
+        if isinstance(e, ast.Call) and isinstance(e.func, ast.Name) and e.func.id == 'map' and len(e.args) == 2 and norm(e.args[0]) == 's.visit':
+            return list(self.ev(e.args[1]))
+        if isinstance(e, ast.Subscript):
+            base = self.ev(e.value)
+            sl = e.slice
+            if isinstance(sl, ast.Slice):
+                f_ = lambda x: None if x is None else self.ev(x)
+                return base[slice(f_(sl.lower), f_(sl.upper), f_(sl.step))]
+            return base[self.ev(sl)]
+        return super().ev(e)
 
 
 def rule_assign(repo, backend):
@@ -2141,46 +2197,112 @@ def rule_assign(repo, backend):
                   fn.lineno)
         else:
             r.ok(um, fname, cons)
-    # (e) emitter: visit_Assign
+    # (e) emitter: visit_Assign -- operator, sides, and value-equivalence of a chained assignment
     vis = tov_visitor(repo, backend)
     seen_b = set()
     for c, f, o in emissions(lk, vis, 'visit_Assign'):
         if o.kind != 'return' or o.value is None:
             continue
         v = o.value
-        ew = elementwise(v)
-        if ew is None or ew.flat or ew.conds or len(ew.names) != 1:
-            r.bad(c.mod, fq(c, f), norm(v)[:80], "visit_Assign must return one statement per target", o.node.lineno)
+        segs = [s_ for s_ in flatten_add(v) if not (isinstance(s_, ast.List) and not s_.elts)]
+        stmts = []          # (template expr, Elementwise or None)
+        okshape = True
+        for s_ in segs:
+            if isinstance(s_, ast.List):
+                stmts += [(e, None) for e in s_.elts]
+                continue
+            ew = elementwise(s_)
+            if ew is None or ew.flat or ew.conds or len(ew.names) != 1:
+                okshape = False
+                break
+            stmts.append((ew.elt, ew))
+        if not okshape or not stmts or 'node.targets' not in norm(v):
+            r.bad(c.mod, fq(c, f), norm(v)[:80], "visit_Assign must return one statement per target of node.targets", o.node.lineno)
             continue
-        tname = ew.names[0]
-        if 'node.targets' not in norm(ew.it):
-            r.bad(c.mod, fq(c, f), norm(ew.it)[:80], "targets of the emitted assignments do not come from node.targets", o.node.lineno)
-            continue
-        for var in to_variants(ew.elt):
-            sk = var.skeleton()
-            hs = [h.text for h in hole_list(var.parts)]
+        for tmpl, ew in stmts:
+            for var in to_variants(tmpl):
+                sk = var.skeleton()
+                hs = [h.text for h in hole_list(var.parts)]
+                for blocking in (True, False):
+                    okc = True
+                    for t, p in var.conds:
+                        try:
+                            val = ev_expr(t, {'node.blocking': blocking})
+                        except (AnalysisError, Raised):
+                            raise AnalysisError(f"{fq(c, f)}: condition outside the abstract domain: {norm(t)}")
+                        nev += 1
+                        if bool(val) != p:
+                            okc = False
+                    if not okc:
+                        continue
+                    seen_b.add(blocking)
+                    want = '⟨0⟩=⟨1⟩;' if blocking else '⟨0⟩<=⟨1⟩;'
+                    cons = f"blocking={blocking} -> {sk} {[h[:50] for h in hs]}"
+                    rhs_ok = len(hs) == 2 and (hs[1] == 's.visit(node.value)' or 'node.targets' in hs[1] or
+                                               (ew is not None and hs[1] == ew.names[0]))
+                    lhs_ok = len(hs) == 2 and ((ew is not None and hs[0] == ew.names[0]) or 'node.targets' in hs[0])
+                    if sk != want:
+                        r.bad(c.mod, fq(c, f), cons, f"a {'blocking (@=)' if blocking else 'non-blocking (<<=)'} assignment must be "
+                              f"emitted as `target {'=' if blocking else '<='} value;`", o.node.lineno)
+                    elif not (lhs_ok and rhs_ok) or hs[0] == 's.visit(node.value)':
+                        r.bad(c.mod, fq(c, f), cons, "left-hand side must be the target, right-hand side the value", o.node.lineno)
+                    else:
+                        r.ok(c.mod, fq(c, f), cons)
+        # chained assignment  t0 = t1 = ... = rhs : Python evaluates rhs once; every target must receive that value
+        verdict = None
+        for n_t in (2, 3):
+            tnames = [f"t{i}" for i in range(n_t)]
             for blocking in (True, False):
-                okc = True
-                for t, p in var.conds:
-                    try:
-                        val = ev_expr(t, {'node.blocking': blocking})
-                    except (AnalysisError, Raised):
-                        raise AnalysisError(f"{fq(c, f)}: condition outside the abstract domain: {norm(t)}")
-                    nev += 1
-                    if bool(val) != p:
-                        okc = False
-                if not okc:
+                seq = []
+                try:
+                    for tmpl, ew in stmts:
+                        items = [None]
+                        if ew is not None:
+                            items = list(_ChainEv(tnames, blocking).ev(ew.it))
+                        for it_ in items:
+                            evx = _ChainEv(tnames, blocking, {ew.names[0]: it_} if ew is not None else {})
+                            call = tmpl
+                            if not (isinstance(call, ast.Call) and isinstance(call.func, ast.Attribute) and call.func.attr == 'format'):
+                                raise AnalysisError("statement template is not a .format() call")
+                            kw = {k.arg: k.value for k in call.keywords}
+                            if 'target' not in kw or 'value' not in kw:
+                                fields = [k for k in kw]
+                                raise AnalysisError(f"statement template fields {fields}")
+                            seq.append((evx.ev(kw['target']), evx.ev(kw['value'])))
+                            nev += 1
+                except (AnalysisError, Raised, TypeError, IndexError, KeyError) as e:
+                    raise AnalysisError(f"{fq(c, f)}: chained-assignment order outside the abstract domain ({e})")
+                if sorted(t for t, _ in seq) != tnames:
+                    verdict = verdict or (n_t, blocking, None, seq, "not every target is assigned exactly once")
                     continue
-                seen_b.add(blocking)
-                want = '⟨0⟩=⟨1⟩;' if blocking else '⟨0⟩<=⟨1⟩;'
-                cons = f"blocking={blocking} -> {sk} {hs}"
-                if sk != want:
-                    r.bad(c.mod, fq(c, f), cons, f"a {'blocking (@=)' if blocking else 'non-blocking (<<=)'} assignment must be "
-                          f"emitted as `target {'=' if blocking else '<='} value;`", o.node.lineno)
-                elif hs != [tname, 's.visit(node.value)']:
-                    r.bad(c.mod, fq(c, f), cons, "left-hand side must be the target, right-hand side the value", o.node.lineno)
-                else:
-                    r.ok(c.mod, fq(c, f), cons)
+                for reads in [()] + [(t,) for t in tnames]:
+                    cur = {t: 'old' for t in tnames}        # value currently held by each target
+                    for tgt, src in seq:
+                        if src == 'RHS':
+                            fresh = all(cur[x] == 'old' for x in reads) or not blocking
+                            cur_val = 'orig' if fresh else 'recomputed'
+                        else:
+                            cur_val = cur[src] if blocking else 'old'
+                        if blocking:
+                            cur[tgt] = cur_val
+                        else:
+                            cur[tgt] = cur[tgt]            # non-blocking: visible only after the block
+                            cur.setdefault('_nb', {})
+                            cur['_nb'][tgt] = cur_val
+                    final = cur.get('_nb', {}) if not blocking else {t: cur[t] for t in tnames}
+                    wrong = [t for t in tnames if final.get(t) != 'orig']
+                    if wrong and verdict is None:
+                        verdict = (n_t, blocking, reads, seq, f"{wrong} do not receive the value the right-hand side had before the statement")
+        order_txt = ' ; '.join(f"{t} {'=' } {s_}" for t, s_ in seq)
+        cons = f"chained assignment -> {order_txt}"
+        if verdict:
+            n_t, blocking, reads, seq, why = verdict
+            chain = ' = '.join(f"t{i}" for i in range(n_t))
+            emitted = '; '.join(f"{t} {'=' if blocking else '<='} {'rhs' if s_ == 'RHS' else s_}" for t, s_ in seq)
+            r.bad(c.mod, fq(c, f), cons, f"`{chain} = rhs` where rhs reads {list(reads) if reads else 'no target'} is emitted as "
+                  f"`{emitted}`: {why} (Python evaluates rhs once and gives every target that value)", o.node.lineno)
+        else:
+            r.ok(c.mod, fq(c, f), cons)
     if seen_b != {True, False}:
         raise AnalysisError("visit_Assign: blocking / non-blocking forms not both found")
     # (f) block layout
@@ -4912,4 +5034,296 @@ def rule_ident_intact(repo, backend):
              "any template", nontrivial=False)
     r.evaluations = n
     r.require_floor(1 if backend == 'sv' else 8)
+    return r
+
+
+# ---------------------------------------------------------------------------
+def rule_name_scope(repo, backend):
+    r = RuleResult('R-tr-name-scope', f"[{backend}] a bare name in an update block is resolved like Python scoping does at the use "
+                                      f"site: inside `for i in range(..)` the name i is the loop variable even if a temporary i "
+                                      f"exists; otherwise a known temporary; an unknown name may only be stored to")
+    lk = linker(repo)
+    gen = generator_class(repo, backend)
+    res = lk.find(gen, 'visit_Name')
+    if res is None:
+        raise AnalysisError("anchor vanished: visit_Name")
+    c, f = res
+    al = bir_aliases(repo, c.mod)
+    ex, outs = sym_run(f)
+    nev = 0
+    mism = []
+    for in_loop, in_tmp, is_load in itertools.product((True, False), repeat=3):
+        leaves = {'node.id': 'i', 's.closure': {}, 's.globals': {}, 's.loop_var_env': {'i'} if in_loop else set(),
+                  's.tmp_var_env': {'i'} if in_tmp else set(), 'isinstance(node.ctx, ast.Load)': is_load}
+        live = []
+        for o in outs:
+            okp = True
+            for t, p in o.conds:
+                if p not in (True, False):
+                    continue
+                nev += 1
+                v = tri(t, leaves)
+                if v is None:
+                    raise AnalysisError(f"{fq(c, f)}: condition outside the abstract domain: {norm(t)[:80]}")
+                if v != p:
+                    okp = False
+                    break
+            if okp:
+                live.append(o)
+        if len(live) != 1:
+            raise AnalysisError(f"{fq(c, f)}: {len(live)} paths for a bare name (loop={in_loop}, tmp={in_tmp}, load={is_load})")
+        o = live[0]
+        if o.kind == 'raise':
+            got = 'reject'
+        elif o.kind == 'return' and isinstance(o.value, ast.Call) and attr_ref(o.value.func, al):
+            got = attr_ref(o.value.func, al)
+        else:
+            got = norm(o.value)[:40] if o.value is not None else o.kind
+        want = 'LoopVar' if in_loop else ('TmpVar' if in_tmp else ('reject' if is_load else 'TmpVar'))
+        if got != want:
+            mism.append((in_loop, in_tmp, is_load, got, want, o))
+    cons = "visit_Name: loop variable > known temporary > (load: reject | store: new temporary)"
+    if mism:
+        in_loop, in_tmp, is_load, got, want, o = mism[0]
+        r.bad(c.mod, fq(c, f), cons, f"a name that is {'the open loop variable' if in_loop else 'no loop variable'} and "
+              f"{'a known temporary' if in_tmp else 'no temporary'} ({'load' if is_load else 'store'}) becomes {got}, expected {want}: "
+              f"e.g. `i = s.a` followed by `for i in range(4): s.out[i] @= ...` indexes with the temporary instead of the loop index",
+              o.node.lineno)
+    else:
+        r.ok(c.mod, fq(c, f), cons)
+    # the loop variable is registered while (and only while) the loop body is visited
+    res = lk.find(gen, 'visit_For')
+    if res is None:
+        raise AnalysisError("anchor vanished: generator visit_For")
+    c2, f2 = res
+    me = f2.args.args[0].arg
+    adds = [n for n in walk_no_nested(f2) if isinstance(n, ast.Call) and norm(n.func) == f"{me}.loop_var_env.add"]
+    rems = [n for n in walk_no_nested(f2) if isinstance(n, ast.Call) and norm(n.func) in (f"{me}.loop_var_env.remove", f"{me}.loop_var_env.discard")]
+    body_loops = [n for n in walk_no_nested(f2) if isinstance(n, ast.For) and 'body' in norm(n.iter)]
+    okf = len(adds) == 1 and len(rems) == 1 and body_loops and adds[0].lineno < body_loops[0].lineno < rems[0].lineno
+    if okf:
+        r.ok(c2.mod, fq(c2, f2), "loop_var_env.add(name) ; visit body ; loop_var_env.remove(name)")
+    else:
+        r.bad(c2.mod, fq(c2, f2), "loop_var_env add / remove around the body", "the loop variable must be registered before the loop "
+              "body is visited and removed afterwards", f2.lineno)
+    r.evaluations = nev
+    r.require_floor(2)
+    return r
+
+
+# ---------------------------------------------------------------------------
+def _unpacked_operands(e):
+    """ordered `<base>['unpacked_type']` operands of a concatenation (a + b, f"{a}{b}", pretty_concat(.., a, b, ..))"""
+    def is_up(x):
+        return isinstance(x, ast.Subscript) and isinstance(x.slice, ast.Constant) and x.slice.value == 'unpacked_type'
+    ops = []
+    if isinstance(e, ast.BinOp) and isinstance(e.op, ast.Add):
+        ops = [x for x in flatten_add(e) if is_up(x)]
+    elif isinstance(e, ast.JoinedStr):
+        ops = [v.value for v in e.values if isinstance(v, ast.FormattedValue) and is_up(v.value)]
+    elif isinstance(e, ast.Call) and norm(e.func) == 'pretty_concat':
+        ops = [x for x in e.args if is_up(x)]
+    return ops
+
+
+def rule_dims_order(repo, backend):
+    r = RuleResult('R-tr-dims-order', f"[{backend}] the unpacked dimensions of a mangled interface / sub-component port are declared "
+                                      f"outermost array first (component, interface, port), the order in which every access indexes "
+                                      f"the name ([ifc][port])")
+    lk = linker(repo)
+    top = backend_class(repo, backend)
+    n = 0
+    for name, (c, f) in sorted(lk.effective_methods(top).items()):
+        if not c.mod.rel.startswith(SV_DIR) or not name.startswith('rtlir_tr_'):
+            continue
+        for g in [f] + _nested_funcs(f):
+            params = [a.arg for a in g.args.args]
+            seen = set()
+            for node in walk_no_nested(g):
+                p_ = parent(node)
+                if isinstance(node, ast.BinOp) and isinstance(p_, ast.BinOp) and isinstance(p_.op, ast.Add) and isinstance(node.op, ast.Add):
+                    continue
+                ops = _unpacked_operands(node) if isinstance(node, (ast.BinOp, ast.JoinedStr, ast.Call)) else []
+                if len(ops) < 2 or id(node) in seen:
+                    continue
+                seen.add(id(node))
+                n += 1
+                ranks = []
+                for x in ops:
+                    b = x.value
+                    # the array type handed to the hook for the entity itself is outer to anything read from the
+                    # already translated inner declarations (loop variables / local records); several array-type
+                    # parameters are outer-to-inner in signature order (component, interface, port)
+                    ranks.append(params.index(b.id) if isinstance(b, ast.Name) and b.id in params else 10 ** 6)
+                cons = f"{name}: {' , '.join(norm(x.value) for x in ops)}"
+                if ranks != sorted(ranks):
+                    r.bad(c.mod, fq(c, f), cons, f"unpacked dimensions are concatenated as [{'] ['.join(norm(x.value) for x in ops)}]: the "
+                          f"dimensions of the inner declaration precede those of the enclosing array, but every access to the mangled "
+                          f"name indexes the enclosing array first (e.g. ifc[2] with port[4] is declared [0:3][0:1] and used as "
+                          f"name[i_ifc][i_port])", node.lineno)
+                else:
+                    r.ok(c.mod, fq(c, f), cons)
+    # the accesses: pending (interface / component) indices are emitted before the port's own index
+    vis = tov_visitor(repo, 'sv')
+    for cc, ff in lk.all_defs(vis, 'visit_Index'):
+        for node in ast.walk(ff):
+            if isinstance(node, ast.JoinedStr):
+                vs = to_variants(node)
+                if len(vs) == 1 and vs[0].skeleton() == '⟨0⟩{}[⟨1⟩]':
+                    n += 1
+                    r.ok(cc.mod, fq(cc, ff), "access template <name>{pending indices}[own index]", nontrivial=False)
+    r.evaluations = n
+    r.require_floor(5)
+    return r
+
+
+# ---------------------------------------------------------------------------
+def rule_const_inline(repo, backend):
+    r = RuleResult('R-tr-const-inline', f"[{backend}] a back-end that declares no constants inlines every constant-array element as a "
+                                        f"literal or refuses the design; no path emits a reference to the undeclared array")
+    lk = linker(repo)
+    top = backend_class(repo, backend)
+    c, f = lk.find(top, 'rtlir_tr_const_decl')
+    rets = [x for x in walk_no_nested(f) if isinstance(x, ast.Return)]
+    declares = not (rets and all(isinstance(x.value, ast.Constant) and x.value.value == '' for x in rets))
+    if declares:
+        r.ok(c.mod, fq(c, f), "constants are declared (localparam): references by name are defined", nontrivial=False)
+        r.require_floor(1)
+        return r
+    r.ok(c.mod, fq(c, f), "rtlir_tr_const_decl emits nothing: constants must be inlined")
+    vis = tov_visitor(repo, backend)
+
+    def assume(e):
+        t = norm(e)
+        if re.fullmatch(r"isinstance\(node\.value\.Type, \w+\.Array\)", t):
+            return True
+        if re.fullmatch(r"isinstance\(node\.value\.Type\.get_sub_type\(\), \w+\.Const\)", t):
+            return True
+        return None
+    n = 0
+    for cc, ff, o in emissions(lk, vis, 'visit_Index'):
+        if not possible(o.conds, {}, assume):
+            continue
+        n += 1
+        conds_txt = [(norm(t)[:60], p) for t, p in o.conds][-3:]
+        cons = f"visit_Index on a constant array, path {conds_txt}"
+        if o.kind == 'raise':
+            r.ok(cc.mod, fq(cc, ff), cons + " -> rejected", nontrivial=False)
+            continue
+        lit = [val for t, op, val, cs in o.stores if op is None and norm(t) == "node.sexpr['s_index']"
+               and any(sized_width(v) is not None for v in to_variants(val))]
+        appended = [val for t, op, val, cs in o.stores if op is not None and "['s_index']" in norm(t)]
+        if lit and not appended:
+            r.ok(cc.mod, fq(cc, ff), cons + " -> literal")
+        else:
+            r.bad(cc.mod, fq(cc, ff), cons, "on this path an index into a list of constants is emitted as NAME[idx]; the back-end "
+                  "never declares NAME (constants are inlined), so e.g. a signal-valued index into a constant table refers to an "
+                  "undeclared identifier instead of being rejected", o.node.lineno)
+    r.evaluations = n
+    r.require_floor(3)
+    return r
+
+
+# ---------------------------------------------------------------------------
+_DT_KINDS = ('Vector', 'Struct', 'PackedArray')
+
+
+def _dispatchers(funcs_by_name):
+    """functions that branch on isinstance(<dtype>, rdt.Vector|Struct|PackedArray) and hand each kind to another function
+    of the same scope: name -> {kind: callee name}"""
+    out = {}
+    for name, fn in funcs_by_name.items():
+        table = {}
+        for iff in [x for x in walk_no_nested(fn) if isinstance(x, ast.If)]:
+            t = iff.test
+            if isinstance(t, ast.Call) and norm(t.func) == 'isinstance' and len(t.args) == 2 and isinstance(t.args[1], ast.Attribute) \
+                    and t.args[1].attr in _DT_KINDS:
+                callees = [_callee_name(x) for st in iff.body for x in ast.walk(st) if isinstance(x, ast.Call)
+                           and _callee_name(x) in funcs_by_name]
+                if callees:
+                    table[t.args[1].attr] = callees[0]
+        if len(table) >= 2 and ('Struct' in table or 'PackedArray' in table):
+            out[name] = table
+    return out
+
+
+def rule_dispatch(repo):
+    r = RuleResult('R-C12-dispatch', "the flattening recursions (port, wire, connection generators and the port-map helper) are the "
+                                     "same recursion over vector | struct | packed array: a struct field and an array element are "
+                                     "handed back to the family's type dispatcher, never straight to the generator of one kind")
+    lk = linker(repo)
+    top = backend_class(repo, 'yosys')
+    scopes = []
+    # methods of the Yosys structural translator (effective definitions), with their nested helpers
+    meths = {}
+    for name, (c, f) in lk.effective_methods(top).items():
+        if c.mod.rel.startswith(YS_DIR):
+            meths[name] = f
+            for g in _nested_funcs(f):
+                meths[g.name + '@' + name] = g
+    scopes.append((repo.mod(YS_S[2]), 'YosysStructuralTranslator', meths))
+    um = repo.mod(YS_UTIL)
+    gm = um.functions.get('gen_mapped_ports')
+    if gm is None:
+        raise AnalysisError("anchor vanished: gen_mapped_ports")
+    scopes.append((um, 'gen_mapped_ports', {g.name: g for g in _nested_funcs(gm)}))
+    n = 0
+    for mod_, where, funcs in scopes:
+        plain = {k: v for k, v in funcs.items() if '@' not in k}
+        disp = _dispatchers(plain)
+        # a nested helper shadows a method of the same name inside its owner
+        nested_of = {}
+        for k, v in funcs.items():
+            if '@' in k:
+                nested_of.setdefault(k.split('@')[1], {})[k.split('@')[0]] = v
+        # literal builders that dispatch to themselves (struct instances) are judged by R-layout-agree, not here
+        selfish = {d for d, t in disp.items() if d in t.values()}
+        selfish |= {d for d, t in disp.items() if set(t.values()) & selfish or any(d in disp[x].values() for x in selfish)}
+        for dname, table in sorted(disp.items()):
+            if dname in selfish:
+                continue
+            family = set(table.values())
+            for kind in ('Struct', 'PackedArray'):
+                if kind not in table:
+                    continue
+                # the generator of this kind and the local helpers it hands the work to
+                chain, todo = [], [table[kind]]
+                while todo:
+                    x = todo.pop()
+                    if x in chain or x not in plain or x == dname:
+                        continue
+                    chain.append(x)
+                    for call in [y for y in walk_no_nested(plain[x]) if isinstance(y, ast.Call)]:
+                        cn = _callee_name(call)
+                        if cn in plain and cn not in family and cn != dname and cn not in disp and cn not in nested_of.get(x, {}):
+                            todo.append(cn)
+                n += 1
+                calls = []
+                for x in chain:
+                    bodies = [plain[x]] + list(nested_of.get(x, {}).values())
+                    local = set(nested_of.get(x, {}))
+                    for b_ in bodies:
+                        for y in walk_no_nested(b_):
+                            if isinstance(y, ast.Call):
+                                cn = _callee_name(y)
+                                if isinstance(y.func, ast.Name) and cn in local:
+                                    continue          # recursion into the owner's own helper
+                                calls.append((x, cn, y))
+                bypass = [(x, cn, y) for x, cn, y in calls if cn in family and cn not in chain]
+                back = [1 for x, cn, y in calls if cn == dname]
+                cons = f"{where}.{dname}: {kind} -> {' -> '.join(chain)}"
+                if bypass:
+                    x, cn, y = bypass[0]
+                    r.bad(mod_, f"{where}.{x}" if where != 'YosysStructuralTranslator' else x, cons,
+                          f"{x} hands the {'field' if kind == 'Struct' else 'element'} straight to {cn} instead of back to the dispatcher "
+                          f"{dname}: a {'struct' if cn.endswith('vector') or 'vector' in cn else 'nested'} "
+                          f"{'element of a packed array' if kind == 'PackedArray' else 'field'} is treated as one flat vector, so this "
+                          f"generator lists other flat ports than its siblings (e.g. the port map vs the emitted module header)", y.lineno)
+                elif not back:
+                    r.bad(mod_, where, cons, f"the {kind} generator never returns to the dispatcher {dname}: nested types are not flattened",
+                          plain[chain[0]].lineno)
+                else:
+                    r.ok(mod_, where, cons)
+    r.evaluations = n
+    r.require_floor(8)
     return r
